@@ -215,3 +215,28 @@ def int_width(v) -> int:
         tup = v.as_tuple()
         return len(tup.digits) + max(0, tup.exponent)
     return digits(v)
+
+
+def tree_digest(t) -> str:
+    """Structural digest of a syntax tree without recursion (trees nested thousands of levels deep are legal)."""
+    h = hashlib.sha256()
+    stack = [t]
+    n = 0
+    while stack:
+        x = stack.pop()
+        n += 1
+        if isinstance(x, (list, tuple)):
+            h.update(b'[%d' % len(x))
+            stack.extend(reversed(x))
+            continue
+        d = getattr(x, '__dict__', None)
+        if isinstance(d, dict) and hasattr(x, 'eval') and not callable(x):
+            h.update(type(x).__name__.encode())
+            for k in sorted(d):
+                h.update(k.encode())
+                stack.append(d[k])
+            continue
+        h.update(repr(x).encode('utf-8', 'backslashreplace'))
+        if isinstance(d, dict) and d:
+            h.update(repr(sorted((k, repr(v)) for k, v in d.items())).encode('utf-8', 'backslashreplace'))
+    return '%s/%d' % (h.hexdigest()[:16], n)
